@@ -75,7 +75,8 @@ def ALIGNED(a, off):
 
 def pad_facts(ctx, a, off):
     p = PADLEN(a, off)
-    ctx.assume(z3.And(p >= 0, p <= 7, z3.Length(ZEROS(p)) == p, ALIGNED(a, off + p), z3.Implies(ALIGNED(a, off), p == 0)))
+    ctx.assume(z3.And(p >= 0, p <= 7, z3.Length(ZEROS(p)) == p, ALIGNED(a, off + p), z3.Implies(ALIGNED(a, off), p == 0),
+                      z3.Implies(ALIGNED(8, off), ALIGNED(a, off))))
     return p
 
 
@@ -87,7 +88,8 @@ def abstraction_lemmas():
     for a in (1, 2, 4, 8):
         pl = padlen(a, off)
         out.append(('padding to %d: 0 <= p < %d, off+p aligned, p = 0 when off is aligned' % (a, a),
-                    z3.Implies(off >= 0, z3.And(pl >= 0, pl < a, pl <= 7, is_aligned(a, off + pl), z3.Implies(is_aligned(a, off), pl == 0)))))
+                    z3.Implies(off >= 0, z3.And(pl >= 0, pl < a, pl <= 7, is_aligned(a, off + pl), z3.Implies(is_aligned(a, off), pl == 0),
+                                                z3.Implies(is_aligned(8, off), is_aligned(a, off))))))
     out.append(('zeros(n) has n bytes for 0 <= n <= 7', z3.Implies(z3.And(n >= 0, n <= 7), z3.Length(zeros(n)) == n)))
     c = z3.String('code')
     out.append(('every alignment is 1, 2, 4 or 8', z3.Or([align_of(c) == a for a in (1, 2, 4, 8)])))
@@ -155,7 +157,7 @@ def add_fixed_contracts(w, targets):
                 return [('shape', z3.BoolVal(False))]
             le = cx.args['lendian'].term
             sl = S.slice_(cx.ctx, cx.a('data'), cx.a('offset'), cx.a('offset') + width)
-            out = [('width', r.items[0].term == width)]
+            out = [('width', r.items[0].term == width), ('read-within-data', cx.a('offset') + width <= z3.Length(cx.a('data')))]
             if code == 'b':
                 out.append(('value', z3.BoolVal(isinstance(r.items[1], VBool)) if not isinstance(r.items[1], VBool) else
                             r.items[1].term == (unpacked('I', le, sl) != 0)))
@@ -210,6 +212,7 @@ def add_string_contracts(w, targets):
         n = unpacked('I', le, S.slice_(cx.ctx, data, off, off + 4))
         body = S.slice_(cx.ctx, data, off + 4, off + 4 + n)
         return [('consumes-length-text-nul', r.items[0].term == 4 + n + 1), ('length-is-32-bit', z3.And(n >= 0, n < 2**32)),
+                ('read-within-data', off + 4 <= z3.Length(data)),
                 ('text', r.items[1].term == ufun('dec_utf8', StringSort, StringSort)(body))]
 
     contract(w, 'txdbus.marshal.unmarshal_string', {'ct': STR, 'data': BYTES, 'offset': INT, 'lendian': BOOL, 'oobFDs': OPAQUE},
@@ -243,7 +246,8 @@ def add_string_contracts(w, targets):
         n = unpacked('B', le, S.slice_(cx.ctx, data, off, off + 1))
         body = S.slice_(cx.ctx, data, off + 1, off + 1 + n)
         return [('consumes-length-text-nul', r.items[0].term == 1 + n + 1), ('length-is-one-byte', z3.And(n >= 0, n <= 255)),
-                ('text', r.items[1].term == ufun('dec_ascii', StringSort, StringSort)(body))]
+                ('read-within-data', off + 1 <= z3.Length(data)),
+                ('text', z3.And(r.items[1].term == ufun('dec_ascii', StringSort, StringSort)(body), z3.Length(r.items[1].term) <= n))]
 
     contract(w, 'txdbus.marshal.unmarshal_signature', {'ct': STR, 'data': BYTES, 'offset': INT, 'lendian': BOOL, 'oobFDs': OPAQUE},
              requires=lambda cx: [('offset-non-negative', cx.a('offset') >= 0)],
